@@ -20,6 +20,7 @@ pub struct WatcherEntry {
 
 /// Register a handler; returns its index (0 outside a run, where nothing is registered).
 pub fn register(h: Handler) -> usize {
+    let _rt = crate::RtGuard::new();
     match enter() {
         Mode::Sim(mut c) => {
             let r = c.notify_registry();
@@ -30,6 +31,7 @@ pub fn register(h: Handler) -> usize {
     }
 }
 pub fn add_path(idx: usize, p: PathBuf) {
+    let _rt = crate::RtGuard::new();
     if let Mode::Sim(mut c) = enter() {
         if let Some(w) = c.notify_registry().watchers.get_mut(idx) {
             w.paths.push(p);
@@ -38,6 +40,7 @@ pub fn add_path(idx: usize, p: PathBuf) {
 }
 /// Called when the watcher object is dropped: the back-end stops delivering and releases the handler.
 pub fn unregister(idx: usize) {
+    let _rt = crate::RtGuard::new();
     // like the real back-end, the event loop stops and drops the handler (after the delivery in progress, if any)
     let h = match enter() {
         Mode::Sim(mut c) => match c.notify_registry().watchers.get_mut(idx) {
@@ -52,12 +55,14 @@ pub fn unregister(idx: usize) {
     drop(h);
 }
 pub fn watcher_count() -> usize {
+    let _rt = crate::RtGuard::new();
     match enter() {
         Mode::Sim(mut c) => c.notify_registry().watchers.len(),
         _ => 0,
     }
 }
 pub fn watcher_info(idx: usize) -> Option<(bool, Vec<PathBuf>)> {
+    let _rt = crate::RtGuard::new();
     match enter() {
         Mode::Sim(mut c) => c.notify_registry().watchers.get(idx).map(|w| (w.alive, w.paths.clone())),
         _ => None,
@@ -65,6 +70,7 @@ pub fn watcher_info(idx: usize) -> Option<(bool, Vec<PathBuf>)> {
 }
 /// Deliver one payload to watcher `idx` on the calling (simulated) thread. Returns false if the watcher is gone.
 pub fn deliver(idx: usize, payload: Box<dyn Any + Send>) -> bool {
+    let _rt = crate::RtGuard::new();
     let h = match enter() {
         Mode::Sim(mut c) => match c.notify_registry().watchers.get(idx) {
             Some(w) if w.alive => match &w.handler {
